@@ -97,3 +97,72 @@ def multi_frame_removal_scripts(rng, n):
         sf = len(lines)
         out.append(("multi-frame-removals-%d" % i, lines + settle_lines(meta), sf))
     return out
+
+
+def away_scripts(rng, n):
+    """two sessions of one client app: while the client is away (disconnected, its reset frame done) the server removes
+    components, despawns, mutates and spawns; optionally it stops and starts again (ticks restart).  The second session must show
+    exactly the server's state: nothing of the first session may survive on the client (stale map entries, components, histories)"""
+    out = []
+    for i in range(n):
+        ncl = rng.choice([1, 2])
+        pol = rng.choice(["all", "all", "black"])
+        lines = ["cfg policy=%s auth=none track=%d nclients=%d timeout=10000" % (pol, rng.randrange(2), ncl), "start", "sframe 0 10"]
+        for c in range(ncl):
+            lines.append("connect %d 1200" % c)
+        nent = rng.randrange(2, 5)
+        comps = {}
+        for e in range(1, nent + 1):
+            comps[e] = set(rng.sample([0, 1, 2], rng.randrange(1, 4)))
+            lines.append("sop spawn %d 1 %s" % (e, " ".join("%d=%d" % (k, rng.randrange(50)) for k in sorted(comps[e]))))
+        for _ in range(rng.randrange(1, 3)):
+            lines.append("sframe 1 16")
+            for c in range(ncl):
+                lines += ["deliver %d s2c 0 all" % c, "deliver %d s2c 1 all" % c, "cframe %d" % c, "deliver %d c2s 0 all" % c]
+            e = rng.choice(sorted(comps))
+            k = rng.choice(sorted(comps[e]))
+            if k != 2:
+                lines.append("sop mutate %d %d=%d" % (e, k, rng.randrange(50, 99)))
+        lines += ["disconnect 0", "cframe 0"]
+        restart = rng.random() < 0.3
+        if restart:
+            lines.append("stop")
+            if ncl == 2:
+                lines += ["disconnect 1", "cframe 1"]
+            lines += ["sframe 0 10", "start", "sframe 0 10"]
+        nxt = nent + 1
+        for _ in range(rng.randrange(1, 5)):
+            r = rng.random()
+            live = sorted(comps)
+            if r < 0.35 and live:
+                e = rng.choice(live)
+                if len(comps[e]) > 0:
+                    k = rng.choice(sorted(comps[e]))
+                    comps[e].discard(k)
+                    lines.append("sop remove %d %d" % (e, k))
+            elif r < 0.55 and len(live) > 1:
+                e = rng.choice(live)
+                del comps[e]
+                lines.append("sop despawn %d" % e)
+            elif r < 0.75 and live:
+                e = rng.choice(live)
+                ks = [k for k in sorted(comps[e]) if k != 2]
+                if ks:
+                    lines.append("sop mutate %d %d=%d" % (e, rng.choice(ks), rng.randrange(100, 150)))
+            else:
+                comps[nxt] = {rng.choice([0, 1])}
+                lines.append("sop spawn %d 1 %d=%d" % (nxt, sorted(comps[nxt])[0], rng.randrange(50)))
+                nxt += 1
+            if rng.random() < 0.5:
+                lines.append("sframe 1 16")
+                if ncl == 2 and not restart:
+                    lines += ["deliver 1 s2c 0 all", "deliver 1 s2c 1 all", "cframe 1", "deliver 1 c2s 0 all"]
+        lines.append("connect 0 1200")
+        connected = [0] if restart else list(range(ncl))
+        if restart and ncl == 2 and rng.random() < 0.5:
+            lines.append("connect 1 1200")
+            connected = [0, 1]
+        meta = dict(connected=connected, events=False)
+        sf = len(lines)
+        out.append(("away-%d" % i, lines + settle_lines(meta), sf))
+    return out
